@@ -328,8 +328,25 @@ fn word_read_run<W: SimWord, A: WordRead<Word = W, Error = std::io::Error> + Wor
     let mut pos: usize = 0;
     let class = fault_class(&s.plan);
     let _ = sh;
+    // after an error the position of the stream is unknown ("lost") until a
+    // successful absolute seek re-establishes it: "seeking to a word position
+    // addresses that word" must hold whatever happened before
+    let mut lost = false;
     for (i, op) in ops.iter().enumerate() {
         ctx.ops += 1;
+        if lost {
+            match op {
+                Op11::SetPos(_) => {}
+                Op11::ReadWord => {
+                    // not asserted, but must not panic
+                    if let Err(p) = guard(|| a.read_word()) {
+                        return ctx.fail("C11.panic", format!("read_word after an error panicked: {}", p));
+                    }
+                    continue;
+                }
+                _ => continue,
+            }
+        }
         match op {
             Op11::ReadWord => {
                 ctx.step(tags(s, "read_word"));
@@ -384,7 +401,8 @@ fn word_read_run<W: SimWord, A: WordRead<Word = W, Error = std::io::Error> + Wor
                                 format!("op #{} read_word failed with {:?} on a fault-free device holding the whole word", i, e.kind()),
                             );
                         }
-                        return;
+                        lost = true;
+                        continue;
                     }
                 }
             }
@@ -423,6 +441,10 @@ fn word_read_run<W: SimWord, A: WordRead<Word = W, Error = std::io::Error> + Wor
                     Ok(()) => {
                         pos = *p as usize * nb;
                         ctx.probe("c11.seek_on_reader");
+                        if lost {
+                            ctx.probe("c11.seek_after_read_error_resumes_checking");
+                        }
+                        lost = false;
                     }
                     Err(e) => {
                         if class == "faultfree" {
@@ -432,7 +454,8 @@ fn word_read_run<W: SimWord, A: WordRead<Word = W, Error = std::io::Error> + Wor
                             );
                         }
                         ctx.probe("c11.seek_err_surfaced");
-                        return;
+                        lost = true;
+                        continue;
                     }
                 }
             }
@@ -822,6 +845,7 @@ impl Family for C11 {
             "c11.partial_trailing_word_err",
             "c11.seek_on_reader",
             "c11.seek_on_writer",
+            "c11.seek_after_read_error_resumes_checking",
         ]
     }
 
